@@ -210,11 +210,13 @@ func runClosedMvn(cs *fw.Case, r *prng.Rand) {
 	class := fmt.Sprintf("%s,%s,floor-%s", dcl, spread, map[bool]string{true: "active", false: "inactive"}[clamped])
 	if clamped && dim >= 2 {
 		// one cell: a floor on the diagonal alone (the off-diagonal entries are
-		// kept) is what decides here, not the conditioning of the data
+		// kept) is what decides here
 		class = "d>=2,floor-active"
 	}
 	sigBase := fmt.Sprintf("C16|%s|vectorNormal|%s", cs.Monitor, class)
-	if illClass(spread) != "" && !(clamped && dim >= 2) {
+	if illClass(spread) != "" {
+		// ... unless the data are in the regime where the one-pass moments are
+		// rounding noise: that decides first
 		sigBase = "C16|closed|vectorNormal-moments|" + spread
 	}
 	if p != nil {
@@ -232,7 +234,7 @@ func runClosedMvn(cs *fw.Case, r *prng.Rand) {
 		return
 	}
 	if err != nil {
-		cs.Violation(sigBase+"|error", err.Error(), wit)
+		cs.Violation(sigBase+failKind(sigBase, "|error"), err.Error(), wit)
 		return
 	}
 	nd, ok := pdf.(*vd.NormalDistribution)
@@ -277,6 +279,7 @@ func runClosedMvn(cs *fw.Case, r *prng.Rand) {
 	if clamped && dim >= 2 {
 		pname = func(int) string { return "Sigma" }
 	}
+
 	judgeEstimate(cs, sigBase, fam, theta, d, pname, wit)
 	if cs.Violations() == 0 && n >= 2 {
 		cs.Nontrivial("mvn", variant, smin, X, gamma)
